@@ -20,7 +20,8 @@ VIOLATIONS = "violations_C12"
 KNOWN = "known_C12"
 SHARD = 70
 RULE = ("actor scripts over {Project(); open_job(sp).init(); open_job(sp).doc[k]=v; open_job(sp).doc(); project.doc[k]=v; "
-        "project.doc(); len(project)} "
+        "project.doc(); len(project); document writes / reads in the body of `for job in project`, of a find_jobs() "
+        "cursor and of a groupby loop; Project('<relative path>') + `with job:` + init of another job} "
         "(same job / different jobs / reader vs writer of one job document or of the project document / listing vs "
         "initialisers), from an empty project "
         "(no workspace directory yet) and from a populated one, run as FORKED PROCESSES under a lock-step scheduler: "
@@ -85,33 +86,79 @@ def apply_threads(flags):
 
 
 # ------------------------------------------------------------------ actors
-def make_actor(root, script):
+def make_actor(root, script, counter=None):
+    """[counter] = {"n": number of scheduled calls this process has made so far} (incremented by the hook filter
+    in the child).  The actor logs every elementary document operation with that number at its start and end."""
+    counter = counter if counter is not None else {"n": 0}
+
     def actor():
         import signac
 
         logging.disable(logging.CRITICAL)
-        out = []
+        out, ops = [], []
         p = None
+
+        def jdoc(job):
+            return ["p", WSN, job.id, DOCF]
+
+        def dset(file, doc, k, v):
+            n0 = counter["n"]
+            doc[k] = v
+            ops.append({"set": True, "file": file, "key": k, "val": v, "start": n0, "end": counter["n"]})
+
+        def dread(file, doc):
+            n0 = counter["n"]
+            val = doc()
+            ops.append({"set": False, "file": file, "key": "", "val": val, "start": n0, "end": counter["n"]})
+            return val
+
         for a in script:
             k = a[0]
             if k == "Project":
                 p = signac.Project(os.path.join(root, "p"))
                 out.append(["unit"])
+            elif k == "ProjectRel":
+                # a handle made from a RELATIVE path (cwd = the scratch root, changed later by `with job:`)
+                os.chdir(root)
+                p = signac.Project("p")
+                out.append(["unit"])
             elif k == "Init":
                 p.open_job(a[1]).init()
                 out.append(["unit"])
             elif k == "DocSet":
-                p.open_job(a[1]).doc[a[2]] = a[3]
+                job = p.open_job(a[1])
+                dset(jdoc(job), job.doc, a[2], a[3])
                 out.append(["unit"])
             elif k == "DocRead":
-                out.append(["doc", p.open_job(a[1]).doc()])
+                job = p.open_job(a[1])
+                out.append(["doc", dread(jdoc(job), job.doc)])
             elif k == "Len":
                 out.append(["num", len(p)])
             elif k == "PDocSet":
-                p.doc[a[1]] = a[2]
+                dset(["p", PDOCF], p.doc, a[1], a[2])
                 out.append(["unit"])
             elif k == "PDocRead":
-                out.append(["doc", p.doc()])
+                out.append(["doc", dread(["p", PDOCF], p.doc)])
+            elif k == "Each":
+                # a document operation in the body of an iteration construct
+                kind, body = a[1], a[2]
+                if kind[0] == "all":
+                    it = iter(p)
+                elif kind[0] == "find":
+                    it = iter(p.find_jobs())
+                else:
+                    it = (job for _, group in p.groupby(kind[1]) for job in group)
+                docs = []
+                for job in it:
+                    if body[0] == "set":
+                        dset(jdoc(job), job.doc, body[1], body[2])
+                    else:
+                        docs.append(dread(jdoc(job), job.doc))
+                out.append(["unit"] if body[0] == "set" else ["docs", docs])
+            elif k == "WithInit":
+                with p.open_job(a[1]):
+                    p.open_job(a[2]).init()
+                out.append(["unit"])
             elif k == "RmWs":
                 try:
                     os.rmdir(p.workspace)
@@ -120,7 +167,7 @@ def make_actor(root, script):
                 out.append(["unit"])
             else:
                 raise AssertionError(a)
-        return out
+        return {"out": out, "ops": ops}
     return actor
 
 
@@ -147,6 +194,9 @@ def build_template(scn, root):
             fh.write(b"x")
         if scn["pre"] == "populated-pdoc":
             p.doc["pk"] = 0
+        if scn["pre"] == "populated2":
+            j2 = p.open_job(SP2).init()
+            j2.doc["k"] = 0
 
 
 # ------------------------------------------------------------------ schedules
@@ -320,6 +370,14 @@ def coq_act(a):
         return f"(APDocSet {Lit.raw(a[1])} {coq_json(a[2])})"
     if k == "PDocRead":
         return "APDocRead"
+    if k == "ProjectRel":
+        return "AProject"
+    if k == "Each":
+        ik = {"all": "IAll", "find": "IFind"}.get(a[1][0]) or "(IGroup %s)" % Lit.raw(a[1][1])
+        body = "BRead" if a[2][0] == "read" else "(BSet %s %s)" % (Lit.raw(a[2][1]), coq_json(a[2][2]))
+        return f"(AEach {ik} {body})"
+    if k == "WithInit":
+        return f"(AWithInit {coq_json(a[1])} {coq_json(a[2])})"
     raise AssertionError(a)
 
 
@@ -328,6 +386,8 @@ def coq_aobs(o):
         return "OUnit"
     if o[0] == "doc":
         return f"(ODoc {coq_json(o[1])})"
+    if o[0] == "docs":
+        return "(ODocs %s)" % coq_list([coq_json(d) for d in o[1]], "json")
     return f"(ONum {coq_nat(o[1])})"
 
 
@@ -346,8 +406,15 @@ def one_run(scn, template, work, prefix, n, sleep0=()):
     root = os.path.join(work, "r%d" % n)
     shutil.copytree(template, root, symlinks=True)
     pre = snapshot12(root)
-    actors = [make_actor(root, s) for s in scn["scripts"]]
-    ex = Explorer(root, actors, hook_filter=hook_filter, timeout=30.0)
+    counter = {"n": 0}          # per process after the fork: the number of scheduled calls made so far
+
+    def counting_filter(op, rel):
+        ok = hook_filter(op, rel)
+        if ok:
+            counter["n"] += 1
+        return ok
+    actors = [make_actor(root, s, counter) for s in scn["scripts"]]
+    ex = Explorer(root, actors, hook_filter=counting_filter, timeout=30.0)
     ex.por = scn.get("por", True)
     res = ex.explore(prefix, sleep0)
     tags = [tag_of(i) for i in range(len(actors))]
@@ -394,26 +461,36 @@ def emit(scn, thr, pre, res, sigs, snap, ws, prefix):
     nact = len(scn["scripts"])
     sched = ["(%s, {| sg_kind := %s; sg_p := %s; sg_q := %s |})" % (coq_nat(a), k, L.path(list(p1)), L.path(list(p2)))
              for (a, k, p1, p2) in sigs]
-    results, robs = [], []
+    results, robs, docops, dobs = [], [], [], []
     for r in res["results"]:
         if r[0] == "ok":
-            results.append("(inl %s)" % coq_list([coq_aobs(o) for o in r[1]], "aobs"))
-            robs.append(r[1])
+            results.append("(inl %s)" % coq_list([coq_aobs(o) for o in r[1]["out"]], "aobs"))
+            robs.append(r[1]["out"])
+            docops.append(coq_list([
+                "{| d_set := %s; d_file := %s; d_key := %s; d_val := %s; d_start := %s; d_end := %s |}" % (
+                    coq_bool(o["set"]), L.path(o["file"]), Lit.raw(o["key"]), coq_json(o["val"]),
+                    coq_nat(o["start"]), coq_nat(o["end"])) for o in r[1]["ops"]], "docop"))
+            dobs.append(["%s %s %s calls %d..%d" % ("set" if o["set"] else "read", "/".join(o["file"][2:]) or o["file"][-1],
+                                                   json.dumps(o["val"] if not o["set"] else {o["key"]: o["val"]}),
+                                                   o["start"], o["end"]) for o in r[1]["ops"]])
         else:
             results.append("(inr %s)" % EXN.get(r[1], "EOther"))
             robs.append("%s: %s" % (r[1], r[2]))
+            docops.append(coq_list([], "docop"))
+            dobs.append([])
     coq = ("{| q_atomic := %s; q_ftab := []; q_ws := %s; q_pre := %s; q_actors := %s; q_tags := %s; q_sched := %s; "
-           "q_results := %s; q_final := %s |}") % (
+           "q_results := %s; q_final := %s; q_docops := %s |}") % (
         coq_bool(thr), L.path(["p", WSN]), L.tree(pre),
         coq_list([coq_list([coq_act(a) for a in s], "act") for s in scn["scripts"]], "(list act)"),
         coq_list([Lit.raw(tag_of(i)) for i in range(nact)], "str"),
-        coq_list(sched, "(nat * csig)"), coq_list(results, "(list aobs + exn)"), L.fobs(snap, ws))
+        coq_list(sched, "(nat * csig)"), coq_list(results, "(list aobs + exn)"), L.fobs(snap, ws),
+        coq_list(docops, "(list docop)"))
     order = [a for (a, _, _, _) in sigs]
     # non-trivial: two adjacent calls of different actors on comparable paths
     nontrivial = any(x[0] != y[0] and any(under(p, q) or under(q, p) for p in (x[2], x[3]) if p for q in (y[2], y[3]) if q)
                      for x, y in zip(sigs, sigs[1:]))
     from .c11 import brief_tree, brief_ws
-    obs = {"schedule": "".join(str(a) for a in order), "results": robs,
+    obs = {"schedule": "".join(str(a) for a in order), "results": robs, "document_operations": dobs,
            "steps": ["%d %s %s" % (a, k, "/".join(p1[2:])) for (a, k, p1, p2) in sigs],
            "final_tree": brief_tree(snap), "projects": brief_ws(ws)}
     desc = {"scn": scn, "prefix": order}
@@ -519,6 +596,27 @@ def doc_scenarios():
     ]
 
 
+def loop_scenarios():
+    """Document operations INSIDE iteration constructs in one process, the other process reads / writes in between;
+    and a project handle made from a relative path whose process changes directory (`with job:`)."""
+    S, R = (lambda sp, k, v: ["DocSet", sp, k, v]), (lambda sp: ["DocRead", sp])
+    E = lambda kind, body: ["Each", kind, body]                                    # noqa: E731
+    return [
+        {"name": "loop-project-set-vs-read", "pre": "populated2",
+         "scripts": [[P(), E(["all"], ["set", "done", 1])], [P(), R(SP1), R(SP2), R(SP1)]]},
+        {"name": "loop-find-read-vs-set", "pre": "populated2",
+         "scripts": [[P(), E(["find"], ["read"]), E(["find"], ["read"])], [P(), S(SP2, "n", 5)]]},
+        {"name": "loop-groupby-set-vs-read", "pre": "populated2",
+         "scripts": [[P(), E(["group", "a"], ["set", "done", 1])], [P(), R(SP1), R(SP2), R(SP1)]]},
+        {"name": "loop-groupby-read-vs-set", "pre": "populated2",
+         "scripts": [[P(), E(["group", "a"], ["read"]), E(["find"], ["read"])], [P(), S(SP1, "n", 5), S(SP1, "m", 6)]]},
+        {"name": "relative-project-with-job", "pre": "populated2",
+         "scripts": [[["ProjectRel"], ["WithInit", SP1, SP3], ["Len"]], [P(), ["Len"], R(SP1), ["Len"]]]},
+        {"name": "relative-project-init", "pre": "empty",
+         "scripts": [[["ProjectRel"], ["Init", SP2], ["WithInit", SP2, SP3], ["Len"]], [P(), ["Len"]]]},
+    ]
+
+
 def scenarios3():
     I, S, R, Ln = (lambda sp: ["Init", sp]), (lambda sp, k, v: ["DocSet", sp, k, v]), (lambda sp: ["DocRead", sp]), ["Len"]
     return [
@@ -548,6 +646,9 @@ def gen_inputs(tier, rng):
                 # no reduction: the reader's calls at EVERY position between the writer's file-system calls
                 d["por"] = False
             descs.append({"scn": d, "budget": 400 if quick else 4000, "seed": rng.randrange(10 ** 6), "order": "dfs"})
+    for scn in loop_scenarios():
+        descs.append({"scn": dict(scn, threads=True), "budget": 120 if quick else 3000, "seed": rng.randrange(10 ** 6),
+                      "order": "random" if quick else "dfs"})
     for name in ("doc-reader-writer", "init-vs-docset", "init-same-empty"):
         scn = [s for s in scenarios() if s["name"] == name][0]
         descs.append({"scn": dict(scn, threads=True, config="default", name=name + "-default"),
